@@ -10,7 +10,7 @@
     enqueue / body replacement / signature / gas election / public-access data / evidence / removal /
     arbitrary writes to the other stores / attestRouter on a message. *)
 From Coq Require Import String List ZArith Bool.
-From Paloma Require Import Cons.Quorum Evm.Attest Evm.AttestProofs Evm.AttestSym Evm.AttestEvidence Evm.AttestEvidenceProofs.
+From Paloma Require Import Cons.Quorum Evm.Attest Evm.AttestProofs Evm.AttestSym Evm.AttestEvidence Evm.AttestEvidenceProofs Evm.UserDeployments.
 From Paloma Require Evm.AttestExamples. (* non-vacuity examples, built with the theorems *)
 Import ListNotations.
 Open Scope Z_scope.
@@ -32,13 +32,13 @@ Section C07.
   Hypothesis D_eqb_true : forall a b, D_eqb a b = true -> a = b.
   Hypothesis H_eqb_refl : forall h, H_eqb h h = true.
 
-  Notation run := (run B S V D H T W E kind_of fees_present expected_calldata expected_deploy D_eqb H_eqb
+  Notation run := (run B S V D H T W E kind_of code_guards fees_present expected_calldata expected_deploy D_eqb H_eqb
                      tx_hash tx_data valset_at compass_present apply_effect on_error_proof).
-  Notation step := (step B S V D H T W E kind_of fees_present expected_calldata expected_deploy D_eqb H_eqb
+  Notation step := (step B S V D H T W E kind_of code_guards fees_present expected_calldata expected_deploy D_eqb H_eqb
                       tx_hash tx_data valset_at compass_present apply_effect on_error_proof).
-  Notation run_from := (run_from B S V D H T W E kind_of fees_present expected_calldata expected_deploy D_eqb H_eqb
+  Notation run_from := (run_from B S V D H T W E kind_of code_guards fees_present expected_calldata expected_deploy D_eqb H_eqb
                           tx_hash tx_data valset_at compass_present apply_effect on_error_proof).
-  Notation endblock_ids := (endblock_ids B S V D H T W E kind_of fees_present expected_calldata expected_deploy D_eqb H_eqb
+  Notation endblock_ids := (endblock_ids B S V D H T W E kind_of code_guards fees_present expected_calldata expected_deploy D_eqb H_eqb
                               tx_hash tx_data valset_at compass_present apply_effect on_error_proof).
 
   (** 1. Every committed success follow-up [e] was produced by attestRouter on a message that stood
@@ -67,9 +67,9 @@ Section C07.
               (firstn (e_prefix _ _ _ _ e) (m_sigs _ _ _ (e_msg _ _ _ _ e)))
       end.
   Proof.
-    exact (success_effects_only_if_calldata_matches_and_receipt_ok B S V D H T W E kind_of fees_present expected_calldata
+    exact (success_effects_only_if_calldata_matches_and_receipt_ok B S V D H T W E kind_of code_guards fees_present expected_calldata
              expected_deploy D_eqb H_eqb tx_hash tx_data valset_at compass_present apply_effect on_error_proof
-             D_eqb_true H_eqb_refl).
+             D_eqb_true H_eqb_refl code_guards_full).
   Qed.
 
   (** 2. The same remote transaction is never accepted for a second message (nor twice for one):
@@ -77,16 +77,16 @@ Section C07.
   Theorem tx_used_at_most_once : forall w n ops,
     NoDup (map (fun e => tx_hash (e_tx _ _ _ _ e)) (effects _ _ _ _ _ _ (run w n ops))).
   Proof.
-    exact (tx_used_at_most_once B S V D H T W E kind_of fees_present expected_calldata expected_deploy D_eqb H_eqb tx_hash
-             tx_data valset_at compass_present apply_effect on_error_proof H_eqb_refl).
+    exact (tx_used_at_most_once B S V D H T W E kind_of code_guards fees_present expected_calldata expected_deploy D_eqb H_eqb tx_hash
+             tx_data valset_at compass_present apply_effect on_error_proof H_eqb_refl code_guards_full).
   Qed.
 
   (** 3. Each message's success follow-up is applied at most once. *)
   Theorem effects_at_most_once : forall w n ops,
     NoDup (map (fun e => m_id _ _ _ (e_msg _ _ _ _ e)) (effects _ _ _ _ _ _ (run w n ops))).
   Proof.
-    exact (effects_at_most_once B S V D H T W E kind_of fees_present expected_calldata expected_deploy D_eqb H_eqb tx_hash
-             tx_data valset_at compass_present apply_effect on_error_proof H_eqb_refl).
+    exact (effects_at_most_once B S V D H T W E kind_of code_guards fees_present expected_calldata expected_deploy D_eqb H_eqb tx_hash
+             tx_data valset_at compass_present apply_effect on_error_proof H_eqb_refl code_guards_full).
   Qed.
 
   (** 3b. ... because the accepted message has left the queue, its id is never issued again, and its
@@ -98,10 +98,10 @@ Section C07.
     In (tx_hash (e_tx _ _ _ _ e)) (processed _ _ _ _ _ _ (run w n ops)).
   Proof.
     intros w n ops e He. split.
-    - exact (accepted_message_is_gone B S V D H T W E kind_of fees_present expected_calldata expected_deploy D_eqb H_eqb tx_hash
-               tx_data valset_at compass_present apply_effect on_error_proof H_eqb_refl w n ops e He).
-    - exact (accepted_tx_is_marked B S V D H T W E kind_of fees_present expected_calldata expected_deploy D_eqb H_eqb tx_hash
-               tx_data valset_at compass_present apply_effect on_error_proof H_eqb_refl w n ops e He).
+    - exact (accepted_message_is_gone B S V D H T W E kind_of code_guards fees_present expected_calldata expected_deploy D_eqb H_eqb tx_hash
+               tx_data valset_at compass_present apply_effect on_error_proof H_eqb_refl code_guards_full w n ops e He).
+    - exact (accepted_tx_is_marked B S V D H T W E kind_of code_guards fees_present expected_calldata expected_deploy D_eqb H_eqb tx_hash
+               tx_data valset_at compass_present apply_effect on_error_proof H_eqb_refl code_guards_full w n ops e He).
   Qed.
 
   (** 4. Any other transaction, a failed receipt, a transaction used before: in every reachable
@@ -118,8 +118,8 @@ Section C07.
      queue _ _ _ _ _ _ s' = remove_msg _ _ _ id (queue _ _ _ _ _ _ s)).
   Proof.
     intros w n ops id env m t rc s.
-    apply AttestProofs.rejected_tx_changes_only_bookkeeping; try assumption.
-    apply run_inv; try assumption. apply inv_init.
+    apply AttestProofs.rejected_tx_changes_only_bookkeeping; try assumption; try exact code_guards_full.
+    apply run_inv; try assumption; try exact code_guards_full. apply inv_init.
   Qed.
 
   (** 5. Zero collected signatures: no compass call is ever accepted. *)
@@ -140,7 +140,7 @@ Section C07.
   Theorem endblock_is_a_run_of_attests : forall l s env,
     endblock_ids s l env = run_from s (map (fun i => OpAttest _ _ _ _ _ i (env i)) l).
   Proof.
-    exact (endblock_is_a_run_of_attests B S V D H T W E kind_of fees_present expected_calldata expected_deploy D_eqb H_eqb tx_hash
+    exact (endblock_is_a_run_of_attests B S V D H T W E kind_of code_guards fees_present expected_calldata expected_deploy D_eqb H_eqb tx_hash
              tx_data valset_at compass_present apply_effect on_error_proof).
   Qed.
 End C07.
@@ -175,15 +175,15 @@ Section C07Evidence.
   Hypothesis T_eq_dec : forall a b : T, {a = b} + {a <> b}.
   Hypothesis keqb_spec : forall a b, keqb a b = true <-> a = b.
 
-  Notation run := (run B S V D H T W E kind_of fees_present expected_calldata expected_deploy D_eqb H_eqb
+  Notation run := (run B S V D H T W E kind_of code_guards fees_present expected_calldata expected_deploy D_eqb H_eqb
                      tx_hash tx_data valset_at compass_present apply_effect on_error_proof).
-  Notation rrun := (rrun B S V D H T W E kind_of fees_present expected_calldata expected_deploy D_eqb H_eqb
+  Notation rrun := (rrun B S V D H T W E kind_of code_guards fees_present expected_calldata expected_deploy D_eqb H_eqb
                       tx_hash tx_data valset_at compass_present apply_effect on_error_proof keqb hash enc snapshot_of).
-  Notation rrun_from := (rrun_from B S V D H T W E kind_of fees_present expected_calldata expected_deploy D_eqb H_eqb
+  Notation rrun_from := (rrun_from B S V D H T W E kind_of code_guards fees_present expected_calldata expected_deploy D_eqb H_eqb
                            tx_hash tx_data valset_at compass_present apply_effect on_error_proof keqb hash enc snapshot_of).
-  Notation flatten := (flatten B S V D H T W E kind_of fees_present expected_calldata expected_deploy D_eqb H_eqb
+  Notation flatten := (flatten B S V D H T W E kind_of code_guards fees_present expected_calldata expected_deploy D_eqb H_eqb
                          tx_hash tx_data valset_at compass_present apply_effect on_error_proof keqb hash enc snapshot_of).
-  Notation rendblock_ids := (rendblock_ids B S V D H T W E kind_of fees_present expected_calldata expected_deploy D_eqb H_eqb
+  Notation rendblock_ids := (rendblock_ids B S V D H T W E kind_of code_guards fees_present expected_calldata expected_deploy D_eqb H_eqb
                                tx_hash tx_data valset_at compass_present apply_effect on_error_proof keqb hash enc snapshot_of).
 
   (** 9. Success effects only if the SUCCESSFUL receipt of exactly that transaction was reported by
@@ -209,9 +209,9 @@ Section C07Evidence.
                    2 * sn_total sn <= 3 * power sn vals.
   Proof.
     intros w n rops e Hok.
-    apply (AttestEvidenceProofs.success_effects_only_if_two_thirds_reported_success B S V D H T W E kind_of fees_present
+    apply (AttestEvidenceProofs.success_effects_only_if_two_thirds_reported_success B S V D H T W E kind_of code_guards fees_present
              expected_calldata expected_deploy D_eqb H_eqb tx_hash tx_data valset_at compass_present apply_effect
-             on_error_proof keqb hash enc snapshot_of H_eqb_refl T_eq_dec keqb_spec w n rops e
+             on_error_proof keqb hash enc snapshot_of H_eqb_refl code_guards_full T_eq_dec keqb_spec w n rops e
              (eq_refl : Gen.C07.bth_covers_full_tx = true) (eq_refl : Gen.C07.bth_covers_full_receipt = true)).
     eapply Forall_impl; [|exact Hok]. intros [] Ho; try exact I. exact Ho.
   Qed.
@@ -222,7 +222,7 @@ Section C07Evidence.
     abs (rrun w n rops) = run w n (flatten (rinit B S V H T W w n) rops).
   Proof.
     intros w n rops.
-    exact (refined_run_is_a_run B S V D H T W E kind_of fees_present expected_calldata expected_deploy D_eqb H_eqb
+    exact (refined_run_is_a_run B S V D H T W E kind_of code_guards fees_present expected_calldata expected_deploy D_eqb H_eqb
              tx_hash tx_data valset_at compass_present apply_effect on_error_proof keqb hash enc snapshot_of
              rops (rinit B S V H T W w n)).
   Qed.
@@ -237,16 +237,16 @@ Section C07Evidence.
       (forall p' a b, rops2 = a ++ RAddEvidence id v p' :: b ->
          find_msg B S T id (queue _ _ _ _ _ _ (abs (rrun w n (rops1 ++ RAddEvidence id v p :: a)))) = None).
   Proof.
-    exact (AttestEvidenceProofs.stored_report_is_the_validators_latest B S V D H T W E kind_of fees_present
+    exact (AttestEvidenceProofs.stored_report_is_the_validators_latest B S V D H T W E kind_of code_guards fees_present
              expected_calldata expected_deploy D_eqb H_eqb tx_hash tx_data valset_at compass_present apply_effect
-             on_error_proof keqb hash enc snapshot_of H_eqb_refl).
+             on_error_proof keqb hash enc snapshot_of H_eqb_refl code_guards_full).
   Qed.
 
   (** 12. The end-blocker loop on histories of reports: the run of the single attestations. *)
   Theorem endblock_over_reports_is_a_run_of_attests : forall l s env ord,
     rendblock_ids s l env ord = rrun_from s (map (fun i => RAttest i (env i) (ord i)) l).
   Proof.
-    exact (rendblock_is_a_run_of_attests B S V D H T W E kind_of fees_present expected_calldata expected_deploy D_eqb H_eqb
+    exact (rendblock_is_a_run_of_attests B S V D H T W E kind_of code_guards fees_present expected_calldata expected_deploy D_eqb H_eqb
              tx_hash tx_data valset_at compass_present apply_effect on_error_proof keqb hash enc snapshot_of).
   Qed.
   (** 15. The second clause on the level of the reports: once validators holding 2/3 of a well-formed
@@ -266,14 +266,14 @@ Section C07Evidence.
     effects _ _ _ _ _ _ (abs (rrun w n (rops ++ [RAttest id env ord]))) = effects _ _ _ _ _ _ (abs s).
   Proof.
     intros w n rops id env ord vals p Ho s sn Hsn Hnd Hrep Hq Hfail.
-    unfold AttestEvidence.rrun. rewrite (rrun_from_snoc B S V D H T W E kind_of fees_present expected_calldata expected_deploy
+    unfold AttestEvidence.rrun. rewrite (rrun_from_snoc B S V D H T W E kind_of code_guards fees_present expected_calldata expected_deploy
       D_eqb H_eqb tx_hash tx_data valset_at compass_present apply_effect on_error_proof keqb hash enc snapshot_of).
-    apply (AttestEvidenceProofs.agreed_failure_report_blocks_success B S V D H T W E kind_of fees_present expected_calldata
+    apply (AttestEvidenceProofs.agreed_failure_report_blocks_success B S V D H T W E kind_of code_guards fees_present expected_calldata
              expected_deploy D_eqb H_eqb tx_hash tx_data valset_at compass_present apply_effect on_error_proof keqb hash enc
-             snapshot_of H_eqb_refl T_eq_dec keqb_spec _ id env ord vals p
+             snapshot_of H_eqb_refl code_guards_full T_eq_dec keqb_spec _ id env ord vals p
              (eq_refl : Gen.C07.bth_covers_full_tx = true) (eq_refl : Gen.C07.bth_covers_full_receipt = true)); try assumption.
-    apply (rrun_inv B S V D H T W E kind_of fees_present expected_calldata expected_deploy D_eqb H_eqb tx_hash tx_data valset_at
-             compass_present apply_effect on_error_proof keqb hash enc snapshot_of H_eqb_refl). apply rinv_init.
+    apply (rrun_inv B S V D H T W E kind_of code_guards fees_present expected_calldata expected_deploy D_eqb H_eqb tx_hash tx_data valset_at
+             compass_present apply_effect on_error_proof keqb hash enc snapshot_of H_eqb_refl code_guards_full). apply rinv_init.
   Qed.
 End C07Evidence.
 
@@ -307,6 +307,47 @@ Theorem two_thirds_clause_refuted_when_status_is_not_hashed :
   power AttestExamples.sn3 (map fst (filter (fun vp => match snd vp with PTx _ (Some r) => r_status r =? 1 | _ => false end)
                                        AttestExamples.reports_dissent)) = 20.
 Proof. exact AttestExamples.status_out_of_the_hash_lets_a_minority_report_win. Qed.
+
+(** Third round.  16. T + model: for EVERY action type, the attester hands a transaction proof
+    straight to its [attest], whose first statement runs the shared attestTransactionIntegrity --
+    processed-tx check, last compass, VerifyAgainstTX, in this order -- and returns on its error.
+    The guard lists are what the model's [attest_msg] runs ([code_guards], Evm/AttestSym.v), and
+    theorems 1-4, 9, 15 are proved for these lists: an attester that loses a guard breaks them. *)
+Theorem every_attester_runs_all_guards :
+  G.integrity_guards = ["processed"; "compass"; "verify"]%string /\
+  G.guards_submit_logic_call = G.integrity_guards /\
+  G.guards_update_valset = G.integrity_guards /\
+  G.guards_upload_smart_contract = G.integrity_guards /\
+  G.guards_upload_user_smart_contract = G.integrity_guards /\
+  G.guards_compass_handover = G.integrity_guards /\
+  G.user_deployment_lookup = ["ChainReferenceId~targetChain"; "CreatedAtBlockHeight~blockHeight"]%string /\
+  G.user_lookup_by_created = true /\
+  G.user_deployment_created = "appended, IN_FLIGHT, created = updated = current height"%string.
+Proof. exact AttestSym.every_attester_runs_all_guards. Qed.
+
+(** 17. The success effect of a user contract upload is a write to the record OF THAT MESSAGE:
+    finishUserSmartContractDeployment (Evm/UserDeployments.v, lookup key from the source) changes
+    exactly one deployment record -- the first one of the message's contract on the message's chain
+    that was put in flight at the message's block height --, keeps its identity, sets status and
+    update height, and leaves every other record as it was. *)
+Theorem user_deployment_success_lands_on_own_record : forall l cid chain h st now l',
+  finish l cid chain h st now = Some l' ->
+  exists a r b, l = a ++ r :: b /\ l' = a ++ settle r st now :: b /\ own_record cid chain h r /\
+                forall x, In x a -> ~ own_record cid chain h x.
+Proof.
+  intros l cid chain h st now l'.
+  exact (finish_writes_own_record l cid chain h st now l' (eq_refl : Gen.C07.user_lookup_by_created = true)).
+Qed.
+
+(** 18. ... and the key must be the creation height: keyed by the height of the last update, the
+    success of a second deployment requested in the block in which the first was settled is
+    written to the first one's record (replayed on the real code: C07:effect-on-another-record). *)
+Theorem own_record_clause_refuted_when_keyed_by_update_height :
+  let d1 := {| u_cid := 7; u_chain := 0; u_created := 5; u_updated := 9; u_status := 2 |} in
+  let d2 := {| u_cid := 7; u_chain := 0; u_created := 9; u_updated := 9; u_status := 0 |} in
+  finish_with false [d1; d2] 7 0 9 1 12 = Some [settle d1 1 12; d2] /\
+  finish_with true [d1; d2] 7 0 9 1 12 = Some [d1; settle d2 1 12].
+Proof. exact lookup_by_update_height_hits_another_record. Qed.
 
 (** 7. T — over the argument lists extracted from eth_txable.go: every action-bearing field is
     packed, and equal expected calls mean the same call. *)
@@ -356,3 +397,6 @@ Print Assumptions endblock_over_reports_is_a_run_of_attests.
 Print Assumptions agreed_failure_report_blocks_success.
 Print Assumptions evidence_seam_as_modelled.
 Print Assumptions two_thirds_clause_refuted_when_status_is_not_hashed.
+Print Assumptions every_attester_runs_all_guards.
+Print Assumptions user_deployment_success_lands_on_own_record.
+Print Assumptions own_record_clause_refuted_when_keyed_by_update_height.
